@@ -89,42 +89,42 @@ def regen(workers=2, bases=("LineTableSmall_Q.cfg", "LineTableSmall_U.cfg")):
     return out
 
 
-def run(rep, tier, exe, totals):
-    import c04_synth
-    workers = 8
-    res = {"states": 0, "transitions": 0, "summary": {}, "samples": [], "synth_objects": 0}
+def run_models(tier, workers=4):
+    """Leg E.  Returns {"states", "transitions", "summary"}.  Raises ToolError on a vacuous run, on a class
+    outside the candidate list, or (thorough) on a stale witness file."""
+    res = {"states": 0, "transitions": 0, "summary": {}}
     bases = ["LineTableSmall_Q.cfg"] if tier == "quick" else \
         ["LineTableSmall_Q.cfg", "LineTableSmall_U.cfg", "LineTableSmall_T.cfg"]
     for base in bases:
         r = exhaustive(base, workers, 1500)
         res["states"] += r.distinct
         res["transitions"] += r.generated
-        res["summary"][base] = {"tables": r.distinct - 1, "wall_s": round(r.wall, 1),
-                                "classes_allowed": CANDIDATES}
+        res["summary"][base] = {"tables": r.distinct - 1, "wall_s": round(r.wall, 1)}
         vlib.log(f"[C04/E] {base}: {r.distinct - 1} tables, no class outside the candidate list, {r.wall:.0f}s")
-    committed = json.loads(WITNESSES.read_text())
+    res["summary"]["classes_allowed"] = CANDIDATES
     if tier == "thorough":
+        committed = json.loads(WITNESSES.read_text())
         must_violate("LineTableSmall_Q.cfg", "Never_SharedAddress", workers)
         must_violate("LineTableSmall_Q.cfg", "Never_NoPe", workers)
-        for cls in NOT_EXPECTED:
-            if derive_witness("LineTableSmall_Q.cfg", cls, workers) is not None:
-                raise vlib.ToolError(f"LineTableSmall: class {cls} unexpectedly has a witness")
-        have = {(w["class"], w["cfg"]) for w in committed}
-        for base in ("LineTableSmall_Q.cfg", "LineTableSmall_U.cfg"):
-            for cls in CANDIDATES:
-                w = derive_witness(base, cls, workers)
-                if (w is not None) != ((cls, base) in have):
-                    raise vlib.ToolError(f"LineTableSmall: witness file is stale for {cls}/{base} "
-                                         f"(run tools/c04_small.py regen)")
+        # every committed witness must still be a TLC counterexample of its class (classes outside the
+        # candidate list cannot appear: ClassesAllowed above would have been violated)
+        for w in committed:
+            d = derive_witness(w["cfg"], w["class"], workers)
+            if d is None:
+                raise vlib.ToolError(f"LineTableSmall: committed witness for {w['class']}/{w['cfg']} is stale "
+                                     f"(run `python3-vt tools/c04_small.py regen`)")
+        have = committed
         res["summary"]["witnesses_rederived"] = len(have)
-    # ---- leg S
-    case, ntab, r = c04_synth.run_tables(rep, exe, committed, "gas", totals)
-    res["synth_objects"] = ntab
-    res["states"] += r.distinct
-    res["transitions"] += r.generated
-    res["samples"].append({"synth_tables": ntab, "first_table": committed[0]["table"], "class": committed[0]["class"]})
-    res["summary"]["synth_objects"] = res["synth_objects"]
     return res
+
+
+def run_synth(rep, exe, totals):
+    """Leg S: the committed witness tables as one real ELF object through oracle + debugger."""
+    import c04_synth
+    committed = json.loads(WITNESSES.read_text())
+    case, ntab, r = c04_synth.run_tables(rep, exe, committed, "gas", totals)
+    return {"synth_objects": ntab, "states": r.distinct, "transitions": r.generated,
+            "samples": [{"synth_tables": ntab, "class": committed[0]["class"], "first_table": committed[0]["table"]}]}
 
 
 if __name__ == "__main__":
